@@ -32,6 +32,31 @@ theorem C03_exclusive_windows {L : Nat} {hasW : Bool} (hL : 1 ≤ L) {s : St} (r
     (h3 : (s.thr u).pos ≤ q') (h4 : q' < (s.thr u).pos + (s.thr u).cached) : q % s.L ≠ q' % s.L :=
   exclusive_windows (reach_inv hL r).1 t u htu ht hu q q' h1 h2 h3 h4
 
+/-- **Why one slot always stays free.** Whatever the producer is entitled to touch, it is never the slot of the last position
+the consumer has published as consumed: every position `q` in the producer's window satisfies `k - 1 < q < k - 1 + L`, where `k`
+is the consumer index the producer last read, so `q` and `k - 1` are different slots. (Hence a consumer that publishes a position
+a moment before it has finished reading the slot below it is not overtaken there by the producer: the change
+`C03-w3-extract-item-releases-slot-before-reading` of DESIGN §10 breaks the order "access, then publish" this file's conformance
+theorem pins, but yields no overlapping access.) -/
+theorem C03_last_released_slot_is_out_of_reach {L : Nat} {hasW : Bool} (hL : 1 ≤ L) {s : St} (r : Reach L hasW s) (q : Nat)
+    (h1 : s.tP.pos ≤ q) (h2 : q < s.tP.pos + s.tP.cached) (hk : 1 ≤ s.tP.k) : q % s.L ≠ (s.tP.k - 1) % s.L := by
+  have inv := (reach_inv hL r).1
+  have j2 := inv.j2 .P
+  have jk := inv.j2k .P
+  have b := inv.j1b .C
+  obtain ⟨o3, o2⟩ := inv.order
+  simp only [St.thr, St.hist, lead, slack] at j2 jk b
+  have hLs := inv.hL
+  have hlt : s.tP.k - 1 < q := by
+    cases hw : s.hasW
+    · have := o2 hw; omega
+    · have := o3 hw; omega
+  have hub : q < s.tP.k - 1 + s.L := by omega
+  intro e
+  -- two numbers less than L apart in the same residue class are equal
+  have := mod_lt_step hLs e hub
+  omega
+
 /-- **Recorded executions of the real crate are executions of this machine.** Whatever trace the scheduler harness
 recorded (loads of the index ahead with the message read, stores of the own index, slot accesses), the lines the replay
 accepts are steps of `Step` (the guards it checks are exactly the premises of the constructors), so the state after the
